@@ -10,6 +10,7 @@ STATE_POOLS = {
     'frozenset': [frozenset(), frozenset([1]), frozenset([1, 2]), frozenset(['p']),
                   frozenset([(1,)]), frozenset([0])],
     'mixed': [0, '0', (0,), frozenset([0]), 'zero', -1, ('x', 1), 2.5],
+    'opaque': 'OPAQUE',
     'genlike': ['[E(X(p))]', 'fair', 'fair0', '[A(G(p))]', 'p', 'true', '[[E(X(p))](0)]'],
 }
 LABEL_POOL = ['p', 'q', 'r_1', 'p or q', 'not p', 'true', 'false', 'A', 'E', 'X', 'U', 'fair', 'fair0',
@@ -23,6 +24,13 @@ def usable_as_atom(name):
     return isinstance(name, str) and '"' not in name and '\\' not in name and '\n' not in name
 
 
+def pool_of(name):
+    if name == 'opaque':
+        from ..graphs import _OPAQUE
+        return _OPAQUE[:8]
+    return STATE_POOLS[name]
+
+
 def fresh(x):
     """An object equal to x but not identical to it (where Python allows): the same state is
     handed to S, R and L as three different objects, as a caller reading them from three
@@ -30,6 +38,8 @@ def fresh(x):
     if isinstance(x, str):
         return ''.join(list(x)) if len(x) > 1 else x
     if isinstance(x, tuple):
+        if any(type(y).__name__ in ('Opaque', 'object') for y in x):
+            return x                       # identity matters inside: hand out the very same object
         return tuple(fresh(y) for y in x) if x else x
     if isinstance(x, frozenset):
         return frozenset(list(x))
@@ -43,7 +53,7 @@ def fresh(x):
 def build(inp):
     """Library Kripke for a heterogeneous case: states from a pool, labels from LABEL_POOL."""
     from pyModelChecking.kripke import Kripke
-    pool = STATE_POOLS[inp['pool']]
+    pool = pool_of(inp['pool'])
     n = inp['n']
     states = [pool[i] for i in inp['state_idx'][:n]]
     R = [(fresh(states[a]), fresh(states[b])) for a, b in inp['edges']]
@@ -151,7 +161,7 @@ def replay(ctx, rec):
 
 
 def is_nontrivial(inp):
-    pool = STATE_POOLS[inp['pool']]
+    pool = pool_of(inp['pool'])
     types = set(type(pool[i]).__name__ for i in inp['state_idx'][:inp['n']])
     odd_label = any(not isinstance(LABEL_POOL[k], str) or not fm.is_identifier(LABEL_POOL[k])
                     or LABEL_POOL[k] in fm.RESERVED for lab in inp['labels'][:inp['n']] for k in lab)
@@ -166,7 +176,7 @@ def random_shard(st, shard, nshards, payload):
     @hs.composite
     def cases(draw):
         pool = draw(hs.sampled_from(sorted(STATE_POOLS)))
-        size = len(STATE_POOLS[pool])
+        size = len(pool_of(pool))
         n = draw(hs.integers(1, min(7, size)))
         idx = draw(hs.permutations(list(range(size))))
         edges = []
@@ -210,7 +220,7 @@ def random_shard(st, shard, nshards, payload):
 def run(ctx):
     ctx.rule = ('Hypothesis structures (1-7 states, sometimes complete graphs; every state handed to S, R and L as '
                 'equal but distinct objects) whose states come from pools of ints, big/negative '
-                'ints, strings (incl. \'\', \'0\', \'A\', \'true\'), tuples, frozensets or mixed types, '
+                'ints, strings (incl. \'\', \'0\', \'A\', \'true\'), tuples, frozensets, mixed types or opaque objects with identity equality, '
                 'and whose label sets hold identifier strings, operator-looking strings (\'p or q\', '
                 '\'not p\', \'true\', \'A\', \'fair\', \'[E(X(p))]\'), and non-strings (ints, tuples, '
                 'None, floats, frozensets); formulas of the called logic (CTL depth <= 3, LTL/CTL* '
